@@ -130,26 +130,47 @@ class LevelWalk:
             outs.append(('fall', st, asm, None))
         return outs
 
+    def _eval_test(self, test, assume):
+        """Three-valued evaluation of a branch test under the assumptions made so far on this path.
+        Returns [(truth, assumptions)] - one entry per way the test can turn out.  Identical sub-conditions
+        (same AST) are correlated, `a and b` / `a or b` / `not a` are decomposed."""
+        if isinstance(test, ast.BoolOp):
+            is_and = isinstance(test.op, ast.And)
+            outs = []
+
+            def rec(i, asm):
+                if i == len(test.values):
+                    outs.append((is_and, asm))
+                    return
+                for truth, a2 in self._eval_test(test.values[i], asm):
+                    if truth != is_and:
+                        outs.append((truth, a2))       # short circuit
+                    else:
+                        rec(i + 1, a2)
+            rec(0, dict(assume))
+            return outs
+        if isinstance(test, ast.UnaryOp) and isinstance(test.op, ast.Not):
+            return [(not truth, a2) for truth, a2 in self._eval_test(test.operand, assume)]
+        key = ast.dump(test)
+        if key in assume:
+            return [(assume[key], dict(assume))]
+        outs = []
+        for b in (True, False):
+            a2 = dict(assume)
+            a2[key] = b
+            nn = self._none_test(test)
+            if nn is not None:
+                a2['#saved-is-none'] = (nn != b)
+            outs.append((b, a2))
+        return outs
+
     def stmt(self, s, state, assume):
         ln = getattr(s, 'lineno', 0)
         if isinstance(s, ast.If):
-            key = ast.dump(s.test)
             res = []
-            branches = []
-            if key in assume:
-                branches = [assume[key]]
-            else:
-                branches = [True, False]
-            for b in branches:
-                a2 = dict(assume)
-                a2[key] = b
-                # conjunction true => each conjunct true
-                if b and isinstance(s.test, ast.BoolOp) and isinstance(s.test.op, ast.And):
-                    for v in s.test.values:
-                        a2[ast.dump(v)] = True
+            for b, a2 in self._eval_test(s.test, assume):
                 st_b = state
-                nn = self._none_test(s.test)
-                if nn is not None and (nn != b) and state == CHANGED:
+                if a2.get('#saved-is-none') and state == CHANGED:
                     # saved level is None <=> get_level found no handler named 'console' <=> set_level(tmp)
                     # had no handler to change (both accessors are guarded by the same name test, rule R5):
                     # nothing was changed, nothing is to be restored
